@@ -28,4 +28,22 @@ def Fault.name : Fault → String
   | .hang => "hang"
   | .panic => "panic"
 
+/-- `if let Some(b) = o { f(b, s) }` for an infallible `f` -/
+def applyOpt {σ β : Type} (o : Option β) (f : β → σ → σ) (s : σ) : σ :=
+  match o with
+  | some b => f b s
+  | none => s
+
+/-- `if let Some(b) = o { f(b, s) }` for an `f` that can fault -/
+def applyOptE {σ β : Type} (o : Option β) (f : β → σ → Except Fault σ) (s : σ) : Except Fault σ :=
+  match o with
+  | some b => f b s
+  | none => .ok s
+
+/-- sequencing of fallible steps -/
+def andThen {σ τ : Type} (x : Except Fault σ) (f : σ → Except Fault τ) : Except Fault τ :=
+  match x with
+  | .error e => .error e
+  | .ok a => f a
+
 end K
